@@ -412,6 +412,27 @@ fn dedupe(t: &MType, xs: Vec<MValue>) -> Vec<MValue> {
     xs.into_iter().filter(|x| seen.insert(m::encode_cell(t, &m::pad(t, &m::norm_numbers(x))))).collect()
 }
 
+/// Sets and map keys of varints: every third one holds a pair 2^(8k-1) / -2^(8k-1), whose minimal
+/// encodings are `00 80 00..` and `80 00..` (they differ only by the leading zero byte, so carriers
+/// that compare or hash after stripping leading zeros must keep that one).
+fn sign_twins(rng: &mut Rng, t: &MType, xs: &mut Vec<MValue>) {
+    if *t != MType::Varint || !rng.chance(1, 3) {
+        return;
+    }
+    let k = *rng.pick(&[1usize, 1, 2, 2, 3, 4, 8, 16, 17]);
+    let mut neg = vec![0u8; k];
+    neg[0] = 0x80;
+    if k > 1 && rng.chance(1, 3) {
+        neg[k - 1] = rng.below(256) as u8;
+    }
+    let mut pos = vec![0u8];
+    pos.extend_from_slice(&neg);
+    let at = rng.usize(0, xs.len());
+    xs.insert(at, MValue::Varint(neg));
+    let at = rng.usize(0, xs.len());
+    xs.insert(at, MValue::Varint(pos));
+}
+
 fn gen_value_at(rng: &mut Rng, t: &MType, pos: Pos, o: &ValueOpts, budget: &mut usize) -> MValue {
     match pos {
         Pos::Top => {
@@ -443,12 +464,14 @@ fn gen_value_at(rng: &mut Rng, t: &MType, pos: Pos, o: &ValueOpts, budget: &mut 
         }
         MType::Set(e) => {
             let n = coll_len(rng, budget, e.is_native());
-            let xs = (0..n).map(|_| gen_value_at(rng, e, Pos::Element, o, budget)).collect();
+            let mut xs: Vec<MValue> = (0..n).map(|_| gen_value_at(rng, e, Pos::Element, o, budget)).collect();
+            sign_twins(rng, e, &mut xs);
             MValue::Set(dedupe(e, xs))
         }
         MType::Map(kt, vt) => {
             let n = coll_len(rng, budget, kt.is_native() && vt.is_native());
-            let ks: Vec<MValue> = (0..n).map(|_| gen_value_at(rng, kt, Pos::Element, o, budget)).collect();
+            let mut ks: Vec<MValue> = (0..n).map(|_| gen_value_at(rng, kt, Pos::Element, o, budget)).collect();
+            sign_twins(rng, kt, &mut ks);
             let ks = dedupe(kt, ks);
             MValue::Map(ks.into_iter().map(|k| (k, gen_value_at(rng, vt, Pos::Element, o, budget))).collect())
         }
